@@ -75,7 +75,16 @@ def userDefinedEFam : EFam := statelessEFam userDefinedEncodeChar 1
 
 def utf8EncodeChar (c : Nat) : Option (List Nat) := some (encodeUtf8 c)
 
-def utf8EFam : EFam := statelessEFam utf8EncodeChar 4
+/-- The space check is exact: a call stops with `OutputFull` only when the next character does not
+fit.  From UTF-8 (`encode_from_utf8_raw`) as many whole characters are copied as fit; from UTF-16
+(`convert_utf16_to_utf8_partial`) the hot loop (`…_partial_inner`) stops when fewer than four bytes
+are free, but the cold `…_partial_tail` then goes on character by character with the exact checks
+`written >= dst.len()` / `written + 2 > dst.len()` / `written + 3 > dst.len()` (and returns with three
+bytes free only in front of a surrogate pair, which needs four).  (C07: with the constant `4` the
+queries `max_buffer_length_from_utf8_without_replacement(n) = n` and `…from_utf16… = 3 n` would not be
+provable for the model although they are right for the code.) -/
+def utf8EFam : EFam :=
+  { statelessEFam utf8EncodeChar 4 with need := fun _ c => (encodeUtf8 c).length }
 
 /-! ### big5.rs (`ascii_compatible_encoder_functions!`, `check_space_two`) -/
 
